@@ -106,7 +106,8 @@ func (e *c08Exec) body(s *vsched.Sched) {
 		ti := ti
 		prog := e.h.Threads[ti]
 		e.events[ti] = make([]c08Event, 0, len(prog))
-		view := &regSys{u: e.u, reg: e.reg, model: e.model0, ctx: context.Background(), handles: append([]ociregistry.BlobWriter(nil), pro.handles...)}
+		// a positive chunk-size hint, as ociserver passes for every PATCH/PUT with a body
+		view := &regSys{u: e.u, reg: e.reg, model: e.model0, ctx: context.Background(), handles: append([]ociregistry.BlobWriter(nil), pro.handles...), hint: 4096}
 		// Handle identity: every thread starts with the prologue's handles (shared objects, writer 0);
 		// a Resume made by a thread yields a handle only that thread holds. Operations that do not name
 		// a writer explicitly are attributed accordingly, so that the model's per-handle start-offset
@@ -130,7 +131,9 @@ func (e *c08Exec) body(s *vsched.Sched) {
 				if op.Op != nil {
 					ev.Out = view.exec(*op.Op)
 				} else {
-					ev.Obs = runQuery(view.ctx, view.reg, *op.Q)
+					q := *op.Q
+					q.Once = true // other threads are running: a second traversal would be a second operation
+					ev.Obs = runQuery(view.ctx, view.reg, q)
 				}
 				ev.Res = c08NextSeq()
 				e.events[ti] = append(e.events[ti], ev)
